@@ -105,9 +105,25 @@ def lean_sources():
     return sorted(res)
 
 
-def scan_sources():
+def import_closure(module):
+    """files of SltVerif modules transitively imported by `module`"""
+    seen, todo = {}, [module]
+    while todo:
+        m = todo.pop()
+        if m in seen or not m.startswith("SltVerif"):
+            continue
+        path = os.path.join(LEAN, *m.split(".")) + ".lean"
+        if not os.path.exists(path):
+            continue
+        seen[m] = path
+        for imp in re.findall(r"^import\s+(\S+)", open(path).read(), re.M):
+            todo.append(imp)
+    return sorted(seen.values())
+
+
+def scan_sources(module):
     bad = []
-    for path in lean_sources():
+    for path in import_closure(module):
         src = strip_comments(open(path).read())
         for n, line in enumerate(src.split("\n"), 1):
             if FORBIDDEN.search(line):
@@ -138,7 +154,7 @@ def prove(pid, thorough):
         return obligations, discharged, failures, []
     discharged += 1
     obligations += 1
-    bad = scan_sources()
+    bad = scan_sources(module)
     if bad:
         failures.append("forbidden constructs in Lean sources:\n" + "\n".join(bad))
     else:
@@ -246,20 +262,41 @@ def correspond(pid, spec, tier, seed):
     stats = {"evaluations": 0, "profiles": [], "disagreements": [], "oracle_failures": [],
              "machinery": [], "distinct": set(), "samples": [], "kinds": {}, "guard_skipped": 0,
              "known": []}
-    for run in spec["runs"]:
+    runs = list(spec["runs"])
+    corpus = os.path.join(ROOT, "corpus", f"{pid}.cases")
+    if os.path.exists(corpus):
+        # minimised past failures / witnesses of known findings: run first
+        first = runs[0]
+        runs.insert(0, {"profile": "corpus", "corpus": corpus, "oracle": first.get("oracle", ""),
+                        "nontrivial": first.get("nontrivial", "script"), "canon": first.get("canon", "")})
+    for run in runs:
         prof = run["profile"]
-        n = run["n_thorough"] if tier == "thorough" else run["n_quick"]
+        n = run.get("n_thorough", 0) if tier == "thorough" else run.get("n_quick", 0)
         outdir = os.path.join(OUT, pid, prof)
         os.makedirs(outdir, exist_ok=True)
         t0 = time.time()
-        p = sh([HARNESS_BIN, "gen", prof, str(seed), str(n), tier, outdir], check=False, timeout=7200)
-        if p.returncode != 0:
-            raise MachineryError(f"harness gen {prof} failed: {p.stdout[-3000:]}")
+        if "corpus" in run:
+            text = open(run["corpus"]).read()
+            open(os.path.join(outdir, "cases.txt"), "w").write(text)
+            p = subprocess.run([HARNESS_BIN, "replay"], input=text, stdout=subprocess.PIPE, text=True, env=ENV)
+            if p.returncode != 0:
+                raise MachineryError("harness replay of the corpus failed")
+            open(os.path.join(outdir, "impl.txt"), "w").write(p.stdout)
+            ncases = len([l for l in text.split("\n") if l])
+            open(os.path.join(outdir, "tags.txt"), "w").write("corpus\n" * ncases)
+            open(os.path.join(outdir, "expect.txt"), "w").write("-\n" * ncases)
+        else:
+            p = sh([HARNESS_BIN, "gen", prof, str(seed), str(n), tier, outdir], check=False, timeout=7200)
+            if p.returncode != 0:
+                raise MachineryError(f"harness gen {prof} failed: {p.stdout[-3000:]}")
         cases, model = run_model(os.path.join(outdir, "cases.txt"), os.path.join(outdir, "model.txt"))
         impl = open(os.path.join(outdir, "impl.txt")).read().split("\n")
         if impl and impl[-1] == "":
             impl.pop()
         tags = open(os.path.join(outdir, "tags.txt")).read().split("\n")
+        expect = []
+        if os.path.exists(os.path.join(outdir, "expect.txt")):
+            expect = open(os.path.join(outdir, "expect.txt")).read().split("\n")
         if len(impl) != len(cases):
             raise MachineryError(f"{prof}: {len(impl)} impl answers for {len(cases)} cases")
         canon = ORACLES.CANON.get(run.get("canon", ""), None)
@@ -283,6 +320,9 @@ def correspond(pid, spec, tier, seed):
                 stats["distinct"].add(hashlib.sha1(c.encode()).digest()[:10])
             if a2 != m2:
                 stats["disagreements"].append({"profile": prof, "index": i, "case": c, "impl": a, "model": m, "tag": tag})
+            if i < len(expect) and expect[i] not in ("-", "") and expect[i] != a:
+                stats["oracle_failures"].append({"profile": prof, "index": i, "case": c, "impl": a, "model": m, "tag": tag,
+                                                 "oracle": "implementation output differs from what the generator intended: " + decode_line(expect[i], 3000)})
             if oracle:
                 msg = oracle(c, a, tag, ctx)
                 if msg:
